@@ -443,44 +443,63 @@ type SelT<E, I, K> = <<E as StreamSelector<I, K>>::Stream as TransformerOf>::T;
 /// The initial snapshots handed to `ExchangeTransformer::init`: none, except for L2 books (one empty
 /// snapshot at sequence 100 per subscribed instrument; the stateless transformers ignore the argument).
 trait Snaps: SubscriptionKind {
-    fn snaps<Key: Clone>(map: &Map<Key>, exchange: ExchangeId) -> Vec<MarketEvent<Key, Self::Event>>;
+    fn snaps<Key: Clone + PartialEq>(map: &Map<Key>, order: &[Key], exchange: ExchangeId) -> Vec<MarketEvent<Key, Self::Event>>;
+}
+
+/// The sequence of the initial L2 snapshot of a MARKET (the text after the `|` of its subscription id): 100, 110, ..
+/// 180, so that the books of one connection start at DIFFERENT sequences, as real snapshots do. `json_for` numbers
+/// the update of a message from the market the message names by the same rule, so the update is a valid first
+/// update exactly if the transformer has put THAT market's snapshot under the instrument.
+fn l2_seq(market: &str) -> u64 {
+    100 + 10 * (market.bytes().fold(7u64, |a, b| a.wrapping_mul(31).wrapping_add(b as u64)) % 9)
 }
 
 impl Snaps for PublicTrades {
-    fn snaps<Key: Clone>(_: &Map<Key>, _: ExchangeId) -> Vec<MarketEvent<Key, Self::Event>> {
+    fn snaps<Key: Clone + PartialEq>(_: &Map<Key>, _: &[Key], _: ExchangeId) -> Vec<MarketEvent<Key, Self::Event>> {
         vec![]
     }
 }
 
 impl Snaps for OrderBooksL1 {
-    fn snaps<Key: Clone>(_: &Map<Key>, _: ExchangeId) -> Vec<MarketEvent<Key, Self::Event>> {
+    fn snaps<Key: Clone + PartialEq>(_: &Map<Key>, _: &[Key], _: ExchangeId) -> Vec<MarketEvent<Key, Self::Event>> {
         vec![]
     }
 }
 
 impl Snaps for Liquidations {
-    fn snaps<Key: Clone>(_: &Map<Key>, _: ExchangeId) -> Vec<MarketEvent<Key, Self::Event>> {
+    fn snaps<Key: Clone + PartialEq>(_: &Map<Key>, _: &[Key], _: ExchangeId) -> Vec<MarketEvent<Key, Self::Event>> {
         vec![]
     }
 }
 
 impl Snaps for OrderBooksL2 {
-    fn snaps<Key: Clone>(map: &Map<Key>, exchange: ExchangeId) -> Vec<MarketEvent<Key, Self::Event>> {
-        map.0
-            .values()
-            .map(|k| MarketEvent {
+    /// one snapshot per subscribed instrument IN SUBSCRIPTION ORDER (the order the snapshot fetcher answers in; the
+    /// instrument map iterates in hash order), each at the sequence of its own market (`l2_seq`)
+    fn snaps<Key: Clone + PartialEq>(map: &Map<Key>, order: &[Key], exchange: ExchangeId) -> Vec<MarketEvent<Key, Self::Event>> {
+        let mut out: Vec<MarketEvent<Key, Self::Event>> = vec![];
+        for key in order {
+            if out.iter().any(|s| s.instrument == *key) {
+                continue;
+            }
+            let Some((id, _)) = map.0.iter().find(|(_, k)| *k == key) else {
+                // its subscription id was taken over by a later subscription: no book of its own
+                continue;
+            };
+            let market = id.0.rsplit('|').next().unwrap_or("");
+            out.push(MarketEvent {
                 time_exchange: Utc.timestamp_millis_opt(0).unwrap(),
                 time_received: Utc.timestamp_millis_opt(0).unwrap(),
                 exchange,
-                instrument: k.clone(),
+                instrument: key.clone(),
                 kind: OrderBookEvent::Snapshot(OrderBook::new(
-                    100,
+                    l2_seq(market),
                     None,
                     Vec::<Level>::new(),
                     Vec::<Level>::new(),
                 )),
-            })
-            .collect()
+            });
+        }
+        out
     }
 }
 
@@ -566,7 +585,7 @@ where
     /// `ExchangeTransformer::init` + serde into the transformer's OWN `Input` type + `Transformer::transform`,
     /// all three of `SelT<E, I, K>`: the transformer type the connector's `impl StreamSelector` names.
     fn msg(&self, json: &str, out: &mut Vec<String>) {
-        let snaps = K::snaps(&self.map, E::ID);
+        let snaps = K::snaps(&self.map, &self.order, E::ID);
         let (tx, _rx) = mpsc::unbounded_channel();
         let mut transformer = block_on(<SelT<E, I, K> as ExchangeTransformer<E, I::Key, K>>::init(
             self.map.clone(),
@@ -581,13 +600,35 @@ where
     }
 }
 
+/// the key the `k`-th instrument of a keyed `sub` line is subscribed under: `k`, or what the preceding `keys`
+/// line says (keys as a global `InstrumentIndex` assigns them: not from 0, not contiguous, not ascending)
+fn key_of(keys: Option<&Vec<usize>>, k: usize) -> usize {
+    keys.map_or(k, |v| v[k])
+}
+
+/// `keys k0 k1 ..`: naturals of at most 18 digits, pairwise distinct (as the Lean drivers)
+fn parse_keys(toks: &[String]) -> Option<Vec<usize>> {
+    let mut out: Vec<usize> = vec![];
+    for t in toks {
+        if t.is_empty() || t.len() > 18 || !t.bytes().all(|b| b.is_ascii_digit()) {
+            return None;
+        }
+        let k = t.parse().ok()?;
+        if out.contains(&k) {
+            return None;
+        }
+        out.push(k);
+    }
+    Some(out)
+}
+
 /// the three instrument representations of one connector type and kind value
 macro_rules! open {
-    ($E:ty, $kind:expr, $subs:expr) => {
+    ($E:ty, $kind:expr, $subs:expr, $keys:expr) => {
         match $subs {
             Subs::Formatted(insts) => Box::new(Sess::<$E, Inst, _>::new(
                 $kind,
-                insts.iter().enumerate().map(|(k, i)| Keyed::new(k, i.clone())).collect(),
+                insts.iter().enumerate().map(|(k, i)| Keyed::new(key_of($keys, k), i.clone())).collect(),
             )) as Box<dyn Session>,
             // the third `Identifier<Market>` impl of every connector: `name_exchange` verbatim
             Subs::Verbatim(insts) => Box::new(Sess::<$E, VInst, _>::new(
@@ -596,7 +637,7 @@ macro_rules! open {
                     .iter()
                     .enumerate()
                     .map(|(k, (name, ik))| MarketInstrumentData {
-                        key: k,
+                        key: key_of($keys, k),
                         name_exchange: InstrumentNameExchange::new(name.as_str()),
                         kind: ik.clone(),
                     })
@@ -735,7 +776,12 @@ fn json_for(ex: &str, kind: K, m: &Msg) -> String {
                     .join(",")
             };
             format!(
-                r#"{{"e":"depthUpdate","E":{t},"T":{t},"s":{s},"U":100,"u":101,"pu":99,"b":[{b}],"a":[{a}]}}"#,
+                r#"{{"e":"depthUpdate","E":{t},"T":{t},"s":{s},"U":{u0},"u":{u1},"pu":{pu},"b":[{b}],"a":[{a}]}}"#,
+                // a valid first update after the snapshot of the market the message names (spot: U <= seq+1 <= u;
+                // futures: U <= seq <= u)
+                u0 = l2_seq(&m.market),
+                u1 = l2_seq(&m.market) + 1,
+                pu = l2_seq(&m.market) - 1,
                 t = it0.unwrap().time,
                 s = q(&m.market),
                 b = lv(false),
@@ -907,29 +953,29 @@ fn json_for(ex: &str, kind: K, m: &Msg) -> String {
 /// Names of the protocol -> connector type and kind value (the 21 arms of `DynamicStreams::init`). Which
 /// transformer and which venue message type belong to a pair is NOT in this table: `Sess` takes them from
 /// `StreamSelector::Stream`.
-fn open_session(ex: &str, kind: K, subs: &Subs) -> Option<Box<dyn Session>> {
+fn open_session(ex: &str, kind: K, subs: &Subs, keys: Option<&Vec<usize>>) -> Option<Box<dyn Session>> {
     Some(match (ex, kind) {
-        ("binance_spot", K::Trades) => open!(BinanceSpot, PublicTrades, subs),
-        ("binance_spot", K::L1) => open!(BinanceSpot, OrderBooksL1, subs),
-        ("binance_spot", K::L2) => open!(BinanceSpot, OrderBooksL2, subs),
-        ("binance_futures_usd", K::Trades) => open!(BinanceFuturesUsd, PublicTrades, subs),
-        ("binance_futures_usd", K::L1) => open!(BinanceFuturesUsd, OrderBooksL1, subs),
-        ("binance_futures_usd", K::L2) => open!(BinanceFuturesUsd, OrderBooksL2, subs),
-        ("binance_futures_usd", K::Liqs) => open!(BinanceFuturesUsd, Liquidations, subs),
-        ("bitfinex", K::Trades) => open!(Bitfinex, PublicTrades, subs),
-        ("bitmex", K::Trades) => open!(Bitmex, PublicTrades, subs),
-        ("bybit_spot", K::Trades) => open!(BybitSpot, PublicTrades, subs),
-        ("bybit_perpetuals_usd", K::Trades) => open!(BybitPerpetualsUsd, PublicTrades, subs),
-        ("coinbase", K::Trades) => open!(Coinbase, PublicTrades, subs),
-        ("gateio_spot", K::Trades) => open!(GateioSpot, PublicTrades, subs),
-        ("gateio_futures_usd", K::Trades) => open!(GateioFuturesUsd, PublicTrades, subs),
-        ("gateio_futures_btc", K::Trades) => open!(GateioFuturesBtc, PublicTrades, subs),
-        ("gateio_perpetuals_usd", K::Trades) => open!(GateioPerpetualsUsd, PublicTrades, subs),
-        ("gateio_perpetuals_btc", K::Trades) => open!(GateioPerpetualsBtc, PublicTrades, subs),
-        ("gateio_options", K::Trades) => open!(GateioOptions, PublicTrades, subs),
-        ("kraken", K::Trades) => open!(Kraken, PublicTrades, subs),
-        ("kraken", K::L1) => open!(Kraken, OrderBooksL1, subs),
-        ("okx", K::Trades) => open!(Okx, PublicTrades, subs),
+        ("binance_spot", K::Trades) => open!(BinanceSpot, PublicTrades, subs, keys),
+        ("binance_spot", K::L1) => open!(BinanceSpot, OrderBooksL1, subs, keys),
+        ("binance_spot", K::L2) => open!(BinanceSpot, OrderBooksL2, subs, keys),
+        ("binance_futures_usd", K::Trades) => open!(BinanceFuturesUsd, PublicTrades, subs, keys),
+        ("binance_futures_usd", K::L1) => open!(BinanceFuturesUsd, OrderBooksL1, subs, keys),
+        ("binance_futures_usd", K::L2) => open!(BinanceFuturesUsd, OrderBooksL2, subs, keys),
+        ("binance_futures_usd", K::Liqs) => open!(BinanceFuturesUsd, Liquidations, subs, keys),
+        ("bitfinex", K::Trades) => open!(Bitfinex, PublicTrades, subs, keys),
+        ("bitmex", K::Trades) => open!(Bitmex, PublicTrades, subs, keys),
+        ("bybit_spot", K::Trades) => open!(BybitSpot, PublicTrades, subs, keys),
+        ("bybit_perpetuals_usd", K::Trades) => open!(BybitPerpetualsUsd, PublicTrades, subs, keys),
+        ("coinbase", K::Trades) => open!(Coinbase, PublicTrades, subs, keys),
+        ("gateio_spot", K::Trades) => open!(GateioSpot, PublicTrades, subs, keys),
+        ("gateio_futures_usd", K::Trades) => open!(GateioFuturesUsd, PublicTrades, subs, keys),
+        ("gateio_futures_btc", K::Trades) => open!(GateioFuturesBtc, PublicTrades, subs, keys),
+        ("gateio_perpetuals_usd", K::Trades) => open!(GateioPerpetualsUsd, PublicTrades, subs, keys),
+        ("gateio_perpetuals_btc", K::Trades) => open!(GateioPerpetualsBtc, PublicTrades, subs, keys),
+        ("gateio_options", K::Trades) => open!(GateioOptions, PublicTrades, subs, keys),
+        ("kraken", K::Trades) => open!(Kraken, PublicTrades, subs, keys),
+        ("kraken", K::L1) => open!(Kraken, OrderBooksL1, subs, keys),
+        ("okx", K::Trades) => open!(Okx, PublicTrades, subs, keys),
         _ => return None,
     })
 }
@@ -937,14 +983,33 @@ fn open_session(ex: &str, kind: K, subs: &Subs) -> Option<Box<dyn Session>> {
 fn run() {
     run_cases(|case, lines| {
         let mut state: Option<(String, K, Box<dyn Session>)> = None;
+        // a `keys` line waiting for its `sub`
+        let mut pending: Option<Vec<usize>> = None;
         for op in &case.ops {
             lines.push("@".into());
             match op[0].as_str() {
+                "keys" => match parse_keys(&op[1..]) {
+                    Some(ks) => {
+                        lines.push(format!("keys {}", ks.len()));
+                        pending = Some(ks);
+                    }
+                    None => {
+                        pending = None;
+                        lines.push("bad-op".into());
+                    }
+                },
                 "sub" if op.len() >= 3 => {
+                    let keys = pending.take();
                     let kind = parse_kind(&op[2]);
-                    let insts = parse_subs(&op[3..]);
+                    // keys belong to a keyed subscription list of the same length
+                    let insts = parse_subs(&op[3..]).filter(|s| match (&keys, s) {
+                        (None, _) => true,
+                        (Some(_), Subs::Unkeyed(_)) => false,
+                        (Some(ks), Subs::Formatted(v)) => ks.len() == v.len(),
+                        (Some(ks), Subs::Verbatim(v)) => ks.len() == v.len(),
+                    });
                     match (kind, insts) {
-                        (Some(kind), Some(insts)) => match open_session(&op[1], kind, &insts) {
+                        (Some(kind), Some(insts)) => match open_session(&op[1], kind, &insts, keys.as_ref()) {
                             Some(sess) => {
                                 lines.push(sess.map_line());
                                 state = Some((op[1].clone(), kind, sess));
@@ -1283,7 +1348,119 @@ fn generate(seed: u64, n_cases: usize, tier: &str) {
     }
     // the input-domain family: separately seeded, after the random cases (which stay as they were)
     generate_domain(seed, n_cases / 4, n_cases, &mut out);
+    // the configuration-shape family: separately seeded, after both (which stay as they were)
+    generate_keys(seed, n_cases / 5, n_cases + n_cases / 4, &mut out);
     out.flush();
+}
+
+// ------------------------------------------------------------------------------------------ configuration-shape family
+// Every case above subscribes the k-th instrument under key k. The engine's indexed market stream
+// (`init_indexed_multi_exchange_market_stream`) subscribes each instrument under its GLOBAL `InstrumentIndex`: the
+// keys of one connection do not start at 0, are not contiguous and need not ascend in subscription order. This
+// family (ids `<n>-cfgk-<exchange>-<kind>`; a `keys` line before the `sub`) cycles over the 21 pairs with 2-6
+// distinct instruments, formatted or verbatim, under keys that are REVERSED positions, positions + an offset,
+// a shuffled sparse subset of 0..60, or large (10^15 + ..); most messages name a subscribed market, so that the
+// key of nearly every event is checked; the L2 pairs additionally meet per-market snapshot sequences (`l2_seq`).
+fn generate_keys(seed: u64, n_extra: usize, first_id: usize, out: &mut Out) {
+    let mut rng = Rng::new(seed ^ 0xC13_0CF6_4B45);
+    const BASES: [&str; 8] = ["btc", "eth", "sol", "xrp", "ada", "dot", "BTC1", "a1"];
+    for j in 0..n_extra {
+        let (ex, kind) = PAIRS[j % PAIRS.len()];
+        out.case(format!("{}-cfgk-{ex}-{kind}", first_id + j + 1));
+        let n_inst = rng.range(2, 6) as usize;
+        let verbatim = rng.chance(50);
+        let mut insts: Vec<GInst> = vec![];
+        let mut guard = 0;
+        while insts.len() < n_inst && guard < 50 {
+            guard += 1;
+            let base = rng.pick(&BASES).to_string();
+            let quote = rng.pick(&["usdt", "usd", "USDC"]).to_string();
+            let mut inst = GInst { base, quote, kind: gen_kind(&mut rng, ex, true), verbatim: None, unkeyed: false };
+            // pairwise distinct venue symbols (the property's hypothesis)
+            if insts.iter().any(|i| i.venue_symbol(ex).eq_ignore_ascii_case(&inst.venue_symbol(ex))) {
+                continue;
+            }
+            if verbatim {
+                inst.verbatim = Some(inst.venue_symbol(ex));
+            }
+            insts.push(inst);
+        }
+        let n = insts.len();
+        let keys: Vec<u64> = match rng.below(4) {
+            0 => (0..n as u64).rev().collect(),
+            1 => {
+                let off = *rng.pick(&[1u64, 7, 1000]);
+                (0..n as u64).map(|k| k + off).collect()
+            }
+            2 => {
+                let mut pool: Vec<u64> = (0..60).collect();
+                for i in (1..pool.len()).rev() {
+                    pool.swap(i, rng.below(i as u64 + 1) as usize);
+                }
+                pool.truncate(n);
+                pool
+            }
+            _ => {
+                let mut v: Vec<u64> = (0..n as u64).map(|k| 1_000_000_000_000_000 + 3 * k).collect();
+                v.swap(0, n - 1);
+                v
+            }
+        };
+        out.line(format!("keys {}", keys.iter().map(|k| k.to_string()).collect::<Vec<_>>().join(" ")));
+        out.line(format!("sub {ex} {kind} {}", insts.iter().map(|i| i.tok()).collect::<Vec<_>>().join(" ")));
+        let outsider = GInst { base: "ltc".into(), quote: "dai".into(), kind: gen_kind(&mut rng, ex, true), verbatim: None, unkeyed: false };
+        let mut chan_ids: Vec<(String, u32)> = Vec::new();
+        if ex == "bitfinex" {
+            // confirmed in reverse subscription order under ascending channel ids
+            let mut next = rng.range(1, 5) as u32;
+            for i in insts.iter().rev() {
+                if rng.chance(90) {
+                    out.line(format!("conf trades {} {next}", i.sub_symbol(ex)));
+                    chan_ids.push((i.sub_symbol(ex), next));
+                    next += rng.range(1, 3) as u32;
+                }
+            }
+        }
+        let base_time: i64 = 1_700_000_000_000 + rng.range(0, 1_000_000) * 1000;
+        for _ in 0..rng.range(3, 7) {
+            let (symbol, chan) = if rng.chance(80) {
+                let i = rng.pick(&insts);
+                (i.venue_symbol(ex), i.venue_channel(ex, kind))
+            } else {
+                (outsider.venue_symbol(ex), outsider.venue_channel(ex, kind))
+            };
+            let chan_id = if ex == "bitfinex" {
+                match chan_ids.iter().find(|(s, _)| *s == symbol) {
+                    Some((_, c)) => *c,
+                    None => 99,
+                }
+            } else {
+                0
+            };
+            let n_items = match kind {
+                "l1" => 2,
+                "liqs" => 1,
+                "l2" => rng.range(1, 2),
+                _ if ex == "bitfinex" => 1,
+                _ if single_trade(ex) => 1,
+                _ => *rng.pick(&[1i64, 1, 2, 3]),
+            } as usize;
+            let mut items = Vec::new();
+            let first_sell = rng.chance(50);
+            for j in 0..n_items {
+                let sell = if kind == "l2" { (j == 1) != first_sell } else { rng.chance(50) };
+                let price = dyadic(&mut rng, false);
+                let mut amount = dyadic(&mut rng, false);
+                let signed = ex == "bitfinex" || (ex.starts_with("gateio_") && ex != "gateio_spot");
+                if signed && rng.chance(50) {
+                    amount = format!("-{amount}");
+                }
+                let dt = if ex == "kraken" { rng.range(0, 8000) * 125 } else { rng.range(0, 1_000_000) };
+                items.push(format!("{price}:{amount}:{}:{}", if sell { "s" } else { "b" }, base_time + dt));
+            }
+            out.line(format!("msg {chan} {symbol} {chan_id} {}", items.join(" ")).trim_end().to_string());
+        }
+    }
 }
 
 // ------------------------------------------------------------------------------------------ domain family
